@@ -387,16 +387,27 @@ theorem C12_mux_discard_exactly_once (cfg : Cfg) (ops : List Op) (hc : cfgWF cfg
 open Scales.FrontEnd in
 /-- Dispatch hop: a call whose deadline has passed when it is dispatched gets TimeoutError at
     once and its request is never handed to the sink below the timeout sink. -/
-theorem C12_frontend_refuses_expired (cl : Call) (now : Nat) (hp : cl.phase = .waitOpen)
+theorem C12_frontend_refuses_expired (cl : Call) (now : Nat) (g : Option Nat) (hp : cl.phase = .waitOpen g)
     (hT : cl.T ≠ 0) (hd : cl.issueT + cl.T < now) (hl : cl.lowerGot = false) :
     (cl.dispatch now).lowerGot = false ∧ (cl.dispatch now).sets = cl.sets ++ [(now, .timeout)] := by
   simp [Call.dispatch, hp, hT, hd, hl]
 
 open Scales.FrontEnd in
-/-- the timer action raises the call's deadline event before anything else, so every hop
-    below that looks at the event afterwards sees it set -/
-theorem C12_frontend_timer_raises_event (cl : Call) (now : Nat) : (cl.fire now).evtSet = true := by
-  unfold Call.fire; split <;> rfl
+/-- the timer action of a dispatched call raises the call's deadline event before anything else,
+    so every hop below that looks at the event afterwards sees it set -/
+theorem C12_frontend_timer_raises_event (cl : Call) (now : Nat) (hd : ∀ g, cl.phase ≠ .waitOpen g) :
+    (cl.fire now).evtSet = true := by
+  unfold Call.fire; split <;> first | rfl | (rename_i h; exact absurd h (hd _))
+
+open Scales.FrontEnd in
+/-- Dispatch hop, call issued while the client is still opening: when the dispatcher's own timer
+    times the call out, the call is over; the open result completing later does not dispatch it —
+    its request is never handed to the sink below, and its result is not touched again. -/
+theorem C12_frontend_timed_out_while_opening_never_dispatched (cl : Call) (due t now : Nat)
+    (hp : cl.phase = .waitOpen (some due)) (hl : cl.lowerGot = false) :
+    ((cl.fire t).dispatch now).lowerGot = false ∧
+    ((cl.fire t).dispatch now).sets = cl.sets ++ [(t, .timeout)] := by
+  simp [Call.fire, Call.dispatch, hp, hl]
 
 open Scales.Serial Scales.Transport in
 /-- Serial transport hop (pre-write check): a request whose deadline has already passed when the
